@@ -39,9 +39,15 @@ from pyrtma.utils.quicklogger_reader import QLFileHeader, QLReader
 PROP = "C17"
 
 RULE = (
-    "Hypothesis draws 0-3 data sets in generated order (mostly 2-3; formatter raw/json/quicklogger; selection = ALL or a subset of 5 core message "
-    "types; continuous or 30 s subdivision), a history of update(msg|None) with clock steps dt in {0,1,16,31} s "
+    "Hypothesis draws a pool of 0-4 data-set descriptions (mostly 2-3; formatter raw/json/quicklogger; msg_types = ALL, a "
+    "subset of 5 core message types, ALL_MESSAGE_TYPES next to explicit types at a drawn position, a list naming a type "
+    "more than once, or a list padded with zeros; continuous or 30 s subdivision; a name, sometimes shared with another "
+    "description), a configuration pre-history (add_data_set, add_data_set under an existing name = update, "
+    "rm_data_set of a configured or of an unknown name, in generated order; every description not configured by "
+    "then is added; one case in three simply adds the pool in order) run on the stopped collection before the first "
+    "start(), a history of update(msg|None) with clock steps dt in {0,1,16,31} s "
     "(flush period 15 s, subdivision 30 s, both read from the code), pause/resume, restart (stop, metadata update, "
+    "sometimes 1-2 further configuration operations, "
     "start of the next recording of the same collection), direct trigger_write() calls of the recording thread, a "
     "final stop, a schedule tape, the header layout of the messages (MessageHeader, or TimeCodeMessageHeader as a "
     "Client(timecode=True) delivers; one layout per case) and the collection mode (writer thread, or "
@@ -51,11 +57,12 @@ RULE = (
     "referenced - and once more after close(), the "
     "files of each data set are read back in subdivision order (raw: frame parser; json: Message.from_json per "
     "line; quicklogger: QLReader.load) and compared with the selected messages handed over while recording and not "
-    "paused, per recording. A thread can be preempted immediately before AND immediately after each of its "
+    "paused, per recording, for exactly the data sets configured when that recording was started (selected = the "
+    "data set's list contains ALL_MESSAGE_TYPES or the message's type, however often). A thread can be preempted immediately before AND immediately after each of its "
     "Event/Thread operations (the plain code between two operations runs with the earlier or with the later one, by "
     "choice of the tape). Additionally schedules of small histories are enumerated depth-first with sleep-set "
     "reduction (an operation and a plain-code block of different threads commute): all schedules with any number "
-    "of preemptions before operations and at most b preemptions taken immediately after an operation. Quick: 14 fixed "
+    "of preemptions before operations and at most b preemptions taken immediately after an operation. Quick: 16 fixed "
     "histories (b=1, <=3000 schedules each) plus 16 Hypothesis-drawn histories with two flush deadlines (b=1, <=1000 "
     "each). Thorough: the fixed histories with b=1 and b=2, every history of <=4 updates with <=2 flush deadlines "
     "(with and without one pause/resume pair) with b=0 over a raw+json+quicklogger collection, continuous and "
@@ -64,7 +71,8 @@ RULE = (
     "dfs-histories-complete / dfs-histories-truncated / dfs-schedules). Non-trivial = a run with >=2 completed "
     "writer cycles in which the writer was preempted between two of its synchronisation operations; distinct = "
     "(formatter set, #cycles, per-cycle preemption pattern, pause present, subdivision present, #subdivisions "
-    "class, timeouts seen)."
+    "class, timeouts seen, data-set list re-bound, ALL mixed with explicit types). Counters with-config-* / "
+    "with-selection-* / with-message-* give the frequency of each configuration and selection class."
 )
 ASSUME = [
     "interleavings are explored at the granularity of Event.is_set/set/clear/wait and Thread.start/join/is_alive: each "
@@ -76,6 +84,12 @@ ASSUME = [
     "messages handed over while paused are outside the property: their presence or absence in the files is not judged",
     "where subdivision boundaries fall is not judged, only the concatenation of the files in subdivision order",
     "disk errors (ENOSPC, EIO) are not modelled: files live on the local tmpfs/disk under /tmp",
+    "the collection is re-configured (add_data_set / rm_data_set) only while it is stopped - before the first start() "
+    "and between stop() and the next start() - as the DataLogger application enforces; at most 4 names (MAX_DATA_SETS "
+    "is 6, DataCollectionFullError is not provoked)",
+    "msg_types entries <= 0 are dropped by DataSet on purpose (0 pads the fixed-length ADD_DATA_SET array): whether a "
+    "data set whose list holds a 0 and not ALL_MESSAGE_TYPES records messages of type 0 is not judged; files of data "
+    "sets that were removed or replaced before a recording started are not looked at",
 ]
 
 # ------------------------------------------------------------------------------------------ seams
@@ -179,12 +193,44 @@ def frame(msg: Message) -> bytes:
     return bytes(msg.header) + bytes(msg.data)
 
 
+def _selection(types):
+    """A pool entry's "types" -> (selects every type, set of TYPES indices named explicitly, msg_types list for
+    DataSet, list contains the padding value 0).
+
+    "ALL" | list of: index into TYPES[:N_SUBSET_TYPES] | "ALL" (= ALL_MESSAGE_TYPES next to explicit ids) |
+    "PAD" (= 0, the filler of the fixed-length msg_types array of ADD_DATA_SET; DataSet drops it).  The list is
+    handed over as drawn: order and repetitions are part of the input, the selection is the set it denotes."""
+    if types == "ALL":
+        return True, frozenset(), [cd.ALL_MESSAGE_TYPES], False
+    mts, idx, all_sub, pad = [], set(), False, False
+    for t in types:
+        if t == "ALL":
+            all_sub = True
+            mts.append(cd.ALL_MESSAGE_TYPES)
+        elif t == "PAD":
+            pad = True
+            mts.append(0)
+        elif isinstance(t, int) and 0 <= t < N_SUBSET_TYPES:
+            idx.add(t)
+            mts.append(TYPES[t].type_id)
+        else:
+            raise HarnessError(f"unknown msg_types entry {t!r}")
+    return all_sub, frozenset(idx), mts, pad
+
+
+def _slot(datasets, k) -> int:
+    """Name slot of pool entry k: the DataSet is called ds<slot>; entries sharing a slot share the name, so adding
+    one while the other is configured takes DataCollection.add_data_set's 'Updated data set' path."""
+    s = datasets[k].get("slot")
+    return k if s is None else int(s)
+
+
 # ------------------------------------------------------------------------------------------ executor
 
 
 class CaseInfo:
     __slots__ = ("choices", "tape", "cycles", "preempt", "timeouts", "n_sub_files", "n_expected", "paused_msgs",
-                 "log", "restarts", "pruned", "direct_triggers", "triggers_while_pending")
+                 "log", "restarts", "pruned", "direct_triggers", "triggers_while_pending", "cfg", "fmts", "has_sub")
 
     def __init__(self):
         self.choices = []
@@ -200,13 +246,18 @@ class CaseInfo:
         self.pruned = False
         self.direct_triggers = 0
         self.triggers_while_pending = 0
+        self.cfg = set()  # classes of configuration / selection the case exercised (counter names)
+        self.fmts = ()  # formatters of the data sets that took part in a recording
+        self.has_sub = False  # ... one of them with a subdivision interval
 
 
-DEFAULT_OPTS = {"timecode": False, "threaded": True}
+DEFAULT_OPTS = {"timecode": False, "threaded": True, "pre": None}
 
 
 def _opts(o) -> dict:
-    """timecode: messages carry TimeCodeMessageHeader; threaded: DataCollection(use_thread=...)."""
+    """timecode: messages carry TimeCodeMessageHeader; threaded: DataCollection(use_thread=...);
+    pre: configuration pre-history run before the first start() - a list of ["add", pool index] | ["rm", slot];
+    None = add every entry of the pool `datasets` in order."""
     d = dict(DEFAULT_OPTS)
     d.update(o or {})
     return d
@@ -341,10 +392,16 @@ def _read_ql(path, defs_path, hdr_cls=MessageHeader):
 def run_case(datasets, history, tape, want_log=False, sleep_sets=False, max_after=None, opts=None) -> CaseInfo:
     """Execute one case; pure function of its arguments.  Raises Violation when C17 does not hold on it.
 
-    datasets: [{"fmt": raw|json|quicklogger, "types": "ALL" | [indices into TYPES], "subdiv": 0 | seconds}]
+    datasets: pool of data-set descriptions [{"fmt": raw|json|quicklogger, "types": see _selection(),
+              "subdiv": 0 | seconds, "slot": name slot (optional, see _slot())}]; which of them are configured when
+              is decided by the configuration operations (opts["pre"] before the first start(), the third element
+              of a restart between two recordings): ["add", pool index] = add_data_set(new DataSet of that
+              description), ["rm", slot] = rm_data_set("ds<slot>").  The collection is only re-configured while it
+              is stopped (the DataLogger refuses ADD_DATA_SET / REMOVE_DATA_SET while recording).
     history:  [["u", type index | -1 (= update(None)), dt] | ["p"] | ["r"] | ["t"] (= trigger_write()) |
-              ["restart", dt]]; stop() is always
-              appended; restart = stop(), metadata update, start() of the next recording of the same collection
+              ["restart", dt, [configuration operations] (optional)]]; stop() is always
+              appended; restart = stop(), metadata update, re-configuration, start() of the next recording of the
+              same collection
     tape:     schedule tape (see vlib/sched.py)
     opts:     see _opts()
     """
@@ -363,23 +420,71 @@ def run_case(datasets, history, tape, want_log=False, sleep_sets=False, max_afte
         dc_mod.threading = ThreadingShim(sched)
         dc_mod.time = clock
         md = LoggingMetadata()
-        # per recording (a restart begins a new one), per data set: ids that must be in the files, in order
-        expected = [[[] for _ in datasets]]
-        dontcare = [set() for _ in datasets]
+        sel = [_selection(d["types"]) for d in datasets]
+        # the harness's own picture of the configuration: [(slot, pool index)] of the data sets that exist now
+        live = []
+        # per recording (a restart begins a new one): the data sets that exist while it runs and, per data set, the
+        # ids that must be in the files, in order / the ids whose presence is not judged
+        runs = []
         frames = {}
+
+        def configure(ops, between):
+            for cop in ops:
+                if cop[0] == "add":
+                    k = cop[1]
+                    d = datasets[k]
+                    slot = _slot(datasets, k)
+                    ds = DataSet(
+                        collection_name="c17", name=f"ds{slot}", sub_dir_fmt=f"ds{k}", file_name_fmt=f"f{k}r$(run)",
+                        formatter_cls=get_formatter(d["fmt"]), subdivide_interval=int(d["subdiv"]),
+                        msg_types=list(sel[k][2]), metadata=md,
+                    )
+                    dsets.append(ds)
+                    coll.add_data_set(ds)
+                    if any(s == slot for s, _k in live):
+                        live[:] = [e for e in live if e[0] != slot]
+                        info.cfg.add("config-add-of-existing-name(update)")
+                        info.cfg.add("config-list-rebound")
+                    live.append((slot, k))
+                elif cop[0] == "rm":
+                    slot = cop[1]
+                    coll.rm_data_set(f"ds{slot}")
+                    info.cfg.add("config-rm_data_set" if any(s == slot for s, _k in live)
+                                 else "config-rm_data_set-of-unknown-name")
+                    info.cfg.add("config-list-rebound")
+                    live[:] = [e for e in live if e[0] != slot]
+                else:
+                    raise HarnessError(f"unknown configuration op {cop!r}")
+                if between:
+                    info.cfg.add("config-change-between-recordings")
+
+        def begin_run():
+            runs.append({"insts": list(live), "exp": [[] for _ in live], "dc": [set() for _ in live]})
+            info.fmts = tuple(sorted(set(info.fmts) | {datasets[k]["fmt"] for _s, k in live}))
+            info.has_sub = info.has_sub or any(datasets[k]["subdiv"] for _s, k in live)
+            for _s, k in live:
+                a, idx, mts, pad = sel[k]
+                if a and idx:
+                    info.cfg.add("selection-ALL-mixed-with-explicit-types")
+                if len([m for m in mts if m > 0]) != len(idx) + (1 if a else 0):
+                    info.cfg.add("selection-with-repeated-type")
+                if pad:
+                    info.cfg.add("selection-with-padding-zeros")
         defs_path = os.path.join(tmp, "c17_qldefs.py")
 
         def check_run(run_no, when, final):
             """The oracle on the files of one recording, as they are on disk now.  -> Violation | None"""
-            exp_run = expected[run_no]
-            for i, d in enumerate(datasets):
+            run = runs[run_no]
+            for j, (slot, i) in enumerate(run["insts"]):
+                d = datasets[i]
                 fmt = d["fmt"]
                 ext = get_formatter(fmt).ext
                 files = _files_in_order(os.path.join(tmp, "rec", f"ds{i}"), f"f{i}r{run_no}", ext)
                 if final:
                     info.n_sub_files += max(0, len(files) - 1)
-                    info.n_expected += len(exp_run[i])
-                tag = f"data set {i} of {len(datasets)} ({fmt}), recording {run_no}, files read {when}"
+                    info.n_expected += len(run["exp"][j])
+                tag = (f"data set ds{slot} (description {i} of {len(datasets)}: {fmt}, msg_types {d['types']}), one of "
+                       f"{len(run['insts'])} configured, recording {run_no}, files read {when}")
                 if not files:
                     return Violation(f"corrupt/{fmt}", f"{tag}: no output file", None)
                 got = []
@@ -394,8 +499,8 @@ def run_case(datasets, history, tape, want_log=False, sleep_sets=False, max_afte
                 except _Corrupt as c:
                     return Violation(f"corrupt/{fmt}" + ("/timecode-header" if timecode else ""), f"{tag}: {c}"
                                      + ("; the messages carry TimeCodeMessageHeader" if timecode else ""), None)
-                v = _compare(tag, fmt, got, exp_run[i], dontcare[i], frames, len(files), _dropped_stage(sched.log),
-                             info.triggers_while_pending > 0)
+                v = _compare(tag, fmt, got, run["exp"][j], run["dc"][j], frames, len(files),
+                             _dropped_stage(sched.log), info.triggers_while_pending > 0)
                 if v is not None:
                     if timecode and v.key.startswith("corrupt/"):
                         v.key += "/timecode-header"
@@ -413,20 +518,12 @@ def run_case(datasets, history, tape, want_log=False, sleep_sets=False, max_afte
                 coll = DataCollection("c17", tmp, "rec", md, use_thread=False)
             coll.write_to_disk.name = "write_to_disk"
             coll.write_finished.name = "write_finished"
-            for i, d in enumerate(datasets):
-                if d["types"] == "ALL":
-                    mts = [cd.ALL_MESSAGE_TYPES]
-                else:
-                    mts = [TYPES[t].type_id for t in d["types"]]
-                ds = DataSet(
-                    collection_name="c17", name=f"ds{i}", sub_dir_fmt=f"ds{i}", file_name_fmt=f"f{i}r$(run)",
-                    formatter_cls=get_formatter(d["fmt"]), subdivide_interval=int(d["subdiv"]), msg_types=mts,
-                    metadata=md,
-                )
-                coll.add_data_set(ds)
-                dsets.append(ds)
+            where = "configuration"
+            pre = opts["pre"]
+            configure([["add", k] for k in range(len(datasets))] if pre is None else pre, False)
             where = "start"
             sched.progress()
+            begin_run()
             coll.start()
             paused = False
             mid = 0
@@ -440,9 +537,20 @@ def run_case(datasets, history, tape, want_log=False, sleep_sets=False, max_afte
                         mid += 1
                         msg = make_msg(mid, ti, timecode)
                         frames[mid] = frame(msg)
-                        for i, d in enumerate(datasets):
-                            if d["types"] == "ALL" or ti in d["types"]:
-                                (dontcare[i].add(mid) if paused else expected[-1][i].append(mid))
+                        n_sel = n_expl = 0
+                        for j, (_s, k) in enumerate(runs[-1]["insts"]):
+                            a, idx, _m, pad = sel[k]
+                            if a or ti in idx:
+                                (runs[-1]["dc"][j].add(mid) if paused else runs[-1]["exp"][j].append(mid))
+                                n_sel += 1
+                                n_expl += ti in idx
+                            elif pad and TYPES[ti].type_id == 0:
+                                # 0 in msg_types is padding, not a selection of type 0: nothing is asserted
+                                runs[-1]["dc"][j].add(mid)
+                        if n_sel > 1:
+                            info.cfg.add("message-selected-by-several-data-sets")
+                        if n_expl > 1:
+                            info.cfg.add("message-type-named-by-several-data-sets")
                         if paused:
                             info.paused_msgs += 1
                     where = "update"
@@ -467,14 +575,17 @@ def run_case(datasets, history, tape, want_log=False, sleep_sets=False, max_afte
                     where = "stop"
                     coll.stop()
                     # "after stop the files are complete": observed now, before start()/close()/gc can flush anything
-                    early = check_run(len(expected) - 1, "right after stop()", False)
+                    early = check_run(len(runs) - 1, "right after stop()", False)
                     if early is not None:
                         break
                     sched.progress()
-                    md.update(json.dumps({"run": len(expected)}))
-                    expected.append([[] for _ in datasets])
+                    md.update(json.dumps({"run": len(runs)}))
                     clock.advance(op[1] if len(op) > 1 else 0)
+                    if len(op) > 2 and op[2]:
+                        where = "configuration"
+                        configure(op[2], True)
                     where = "start"
+                    begin_run()
                     coll.start()
                     paused = False
                     info.restarts += 1
@@ -484,7 +595,7 @@ def run_case(datasets, history, tape, want_log=False, sleep_sets=False, max_afte
                 where = "stop"
                 sched.progress()
                 coll.stop()
-                early = check_run(len(expected) - 1, "right after stop()", False)
+                early = check_run(len(runs) - 1, "right after stop()", False)
             if early is None:
                 where = "close"
                 sched.progress()
@@ -526,7 +637,7 @@ def run_case(datasets, history, tape, want_log=False, sleep_sets=False, max_afte
         if pending is None:
             pending = early
         if pending is None:
-            for run_no in range(len(expected)):
+            for run_no in range(len(runs)):
                 pending = check_run(run_no, "after close()", True)
                 if pending is not None:
                     break
@@ -613,27 +724,104 @@ def _compare(tag, fmt, got, exp, dontcare, frames, nfiles, dropped_stage, restag
 # ------------------------------------------------------------------------------------------ generator
 
 
+def types_strategy():
+    """msg_types of one data set (see _selection): ALL alone, a set of explicit types, ALL_MESSAGE_TYPES next to
+    explicit types (at a drawn position), a list that names a type more than once, a list padded with zeros as
+    the fixed-length array of ADD_DATA_SET delivers it."""
+    def mk(t):
+        kind, xs, pos = t
+        if kind <= 2:
+            return "ALL"
+        if kind <= 5:
+            return sorted(set(xs))[:3]
+        if kind <= 7:
+            ys = list(xs[:3])
+            ys.insert(pos % (len(ys) + 1), "ALL")
+            return ys
+        if kind == 8:
+            return list(xs) + [xs[pos % len(xs)]]
+        return (["ALL"] if pos % 3 == 0 else sorted(set(xs))[:3]) + ["PAD", "PAD"]
+
+    return st.tuples(st.integers(0, 9), st.lists(st.integers(0, N_SUBSET_TYPES - 1), min_size=1, max_size=4),
+                     st.integers(0, 5)).map(mk)
+
+
 def datasets_strategy():
     one = st.fixed_dictionaries({
         "fmt": st.sampled_from(FORMATTERS),
-        "types": st.one_of(
-            st.just("ALL"),
-            st.lists(st.integers(0, N_SUBSET_TYPES - 1), min_size=1, max_size=3, unique=True).map(sorted),
-        ),
+        "types": types_strategy(),
         "subdiv": st.sampled_from((0, 0, SUBDIV)),
+        # mostly a name of its own; sometimes the name of another entry (adding both = update of the first)
+        "slot": st.integers(0, 11).map(lambda x: x if x < 2 else None),
     })
     # sizes drawn explicitly: mostly 2-3 data sets (each formatter also in a non-last position), rarely none
-    sizes = st.sampled_from((3, 2, 3, 2, 1, 2, 3, 0))
+    sizes = st.sampled_from((3, 2, 3, 2, 1, 2, 3, 4, 0))
     return sizes.flatmap(lambda n: st.lists(one, min_size=n, max_size=n))
 
 
+def _raw_cfg_ops(max_size):
+    """Configuration operations before their pool indices are known: (kind, a) -> see _cfg_ops."""
+    return st.lists(st.tuples(st.integers(0, 5), st.integers(0, 3)), max_size=max_size)
+
+
+def _cfg_ops(raw, n_pool):
+    """kind < 4: add pool entry a (mod pool size); else rm_data_set of name slot a (which may name nothing)."""
+    out = []
+    for kind, a in raw:
+        if kind < 4:
+            if n_pool:
+                out.append(["add", a % n_pool])
+        else:
+            out.append(["rm", a])
+    return out
+
+
+def _live_after(datasets, ops, live=()):
+    """Generator-side bookkeeping of names: pool indices configured after `ops` (names are unique)."""
+    live = list(live)
+    for op in ops:
+        slot = _slot(datasets, op[1]) if op[0] == "add" else op[1]
+        live = [k for k in live if _slot(datasets, k) != slot]
+        if op[0] == "add":
+            live.append(op[1])
+    return live
+
+
+def _pre_history(datasets, mode, raw_a, raw_b):
+    """Configuration pre-history.  mode 0: None (= every pool entry added once, in order).  Otherwise: drawn
+    operations, then every pool entry that is not configured at that point is added (in pool order, so most
+    entries take part in the recording), then up to two more drawn operations."""
+    if mode == 0:
+        return None
+    n = len(datasets)
+    a = _cfg_ops(raw_a, n)
+    live = _live_after(datasets, a)
+    mid = [["add", k] for k in range(n) if k not in live]
+    return a + mid + _cfg_ops(raw_b[:2], n)
+
+
+def _normalise_case(t):
+    datasets, raw_history, tape, opts, (mode, raw_a, raw_b) = t
+    n = len(datasets)
+    history = []
+    for op in raw_history:
+        if op[0] == "restart":
+            cfg = _cfg_ops(op[2], n)
+            op = ["restart", op[1]] + ([cfg] if cfg else [])
+        history.append(op)
+    opts = dict(opts)
+    opts["pre"] = _pre_history(datasets, mode, raw_a, raw_b)
+    return datasets, history, tape, opts
+
+
 def _op_strategy(dts, weights=(9, 1, 1, 1, 1)):
-    """One history operation; the kind is one weighted integer draw (one_of would merge identical branches)."""
+    """One history operation; the kind is one weighted integer draw (one_of would merge identical branches).
+    A restart carries raw configuration operations (mostly none), resolved by _normalise_case."""
     wu, wp, wr, ws, wt = weights
     total = wu + wp + wr + ws + wt
 
     def mk(t):
-        k, ti, dt = t
+        k, ti, dt, (with_cfg, cfg) = t
         if k < wu:
             return ["u", ti, dt]
         if k < wu + wp:
@@ -641,10 +829,11 @@ def _op_strategy(dts, weights=(9, 1, 1, 1, 1)):
         if k < wu + wp + wr:
             return ["r"]
         if k < wu + wp + wr + ws:
-            return ["restart", dt]
+            return ["restart", dt, cfg if with_cfg else []]
         return ["t"]
 
-    return st.tuples(st.integers(0, total - 1), st.integers(-1, len(TYPES) - 1), st.sampled_from(dts)).map(mk)
+    return st.tuples(st.integers(0, total - 1), st.integers(-1, len(TYPES) - 1), st.sampled_from(dts),
+                     st.tuples(st.integers(0, 2).map(lambda x: x == 2), _raw_cfg_ops(2))).map(mk)
 
 
 def history_strategy(max_len):
@@ -672,8 +861,14 @@ def opts_strategy():
     return st.integers(0, 11).map(lambda k: {"timecode": k % 3 == 2, "threaded": k < 9})
 
 
+def pre_strategy():
+    # (mode, operations before / after the point where every unconfigured pool entry is added)
+    return st.tuples(st.integers(0, 2), _raw_cfg_ops(4), _raw_cfg_ops(2))
+
+
 def case_strategy(max_len, max_tape):
-    return st.tuples(datasets_strategy(), history_strategy(max_len), tape_strategy(max_tape), opts_strategy())
+    return st.tuples(datasets_strategy(), history_strategy(max_len), tape_strategy(max_tape), opts_strategy(),
+                     pre_strategy()).map(_normalise_case)
 
 
 def small_case_strategy():
@@ -683,13 +878,20 @@ def small_case_strategy():
     op = _op_strategy((0, 1), (5, 1, 1, 1, 1))
     one = st.fixed_dictionaries({
         "fmt": st.sampled_from(FORMATTERS),
-        "types": st.one_of(st.just("ALL"), st.just([1, 2])),
+        "types": st.sampled_from(("ALL", [1, 2], ["ALL", 1], [2, 1, 2], [2, "ALL", 2, "PAD"])),
         "subdiv": st.sampled_from((0, SUBDIV)),
+        "slot": st.sampled_from((None, None, 0)),
     })
     hist = st.tuples(fupd, st.lists(op, max_size=2), fupd, st.lists(op, max_size=1)).map(
         lambda t: [t[0]] + t[1] + [t[2]] + t[3])
+
+    def norm(t):
+        datasets, history, tape, opts = _normalise_case((t[0], t[1], [], t[2], t[3]))
+        return datasets, history, opts
+
     return st.tuples(st.lists(one, min_size=1, max_size=2), hist,
-                     st.integers(0, 3).map(lambda k: {"timecode": k == 3, "threaded": True}))
+                     st.integers(0, 3).map(lambda k: {"timecode": k == 3, "threaded": True}),
+                     st.tuples(st.integers(0, 1), _raw_cfg_ops(2), _raw_cfg_ops(1))).map(norm)
 
 
 def _account(res: Result, datasets, history, info: CaseInfo, tag="", opts=None):
@@ -700,11 +902,15 @@ def _account(res: Result, datasets, history, info: CaseInfo, tag="", opts=None):
         res.count(f"{tag}unthreaded(use_thread=False)")
     if info.direct_triggers:
         res.count(f"{tag}with-direct-trigger_write")
-    fmts = tuple(sorted({d["fmt"] for d in datasets}))
+    fmts = tuple(info.fmts)
+    for c in sorted(info.cfg):
+        res.count(f"{tag}with-{c}")
+    if o["pre"] is not None:
+        res.count(f"{tag}with-generated-configuration-pre-history")
     has_pause = any(op[0] == "p" for op in history)
     if info.restarts:
         res.count(f"{tag}with-restart")
-    has_sub = any(d["subdiv"] for d in datasets)
+    has_sub = info.has_sub
     n_upd = sum(1 for op in history if op[0] == "u")
     preempted = any(a or b for a, b in info.preempt)
     for f in fmts:
@@ -732,7 +938,8 @@ def _account(res: Result, datasets, history, info: CaseInfo, tag="", opts=None):
     if info.cycles >= 2 and preempted:
         res.count(f"{tag}nontrivial")
         res.shape(fmts, min(info.cycles, 5), info.preempt[:5], has_pause, has_sub, min(info.n_sub_files, 3),
-                  min(info.timeouts, 3), min(info.restarts, 2), o["timecode"], min(info.direct_triggers, 2))
+                  min(info.timeouts, 3), min(info.restarts, 2), o["timecode"], min(info.direct_triggers, 2),
+                  "config-list-rebound" in info.cfg, "selection-ALL-mixed-with-explicit-types" in info.cfg)
         return True
     return False
 
@@ -758,6 +965,14 @@ FIXED_DFS = [
     (_RAW, [["u", 1, 0], ["t"], ["u", 2, 0], ["t"], ["u", 3, 0]]),
     (_ALL3, [["u", 1, 16], ["u", 2, 0], ["t"], ["u", 3, 1]], {"timecode": True}),
     (_ALL3, [["u", 1, 16], ["u", 2, 16], ["t"], ["u", 3, 1]], {"threaded": False}),
+    # a data set re-configured under its name before recording (the data-set list is re-bound), selections that
+    # mix ALL_MESSAGE_TYPES with explicit types / repeat a type / are padded with zeros, one type named by two data sets
+    ([{"fmt": "raw", "types": [3], "subdiv": 0}, {"fmt": "raw", "types": [2, "ALL", 2], "subdiv": 0, "slot": 0},
+      {"fmt": "json", "types": [2, 2, 1, "PAD"], "subdiv": 0}],
+     [["u", 1, 16], ["u", 2, 16]]),
+    # rm_data_set of an unknown and of a configured name before the first recording, remove + re-add between recordings
+    (_ALL3, [["u", 1, 16], ["restart", 0, [["rm", 1], ["add", 0]]], ["u", 2, 16]],
+     {"pre": [["add", 0], ["rm", 3], ["add", 1], ["rm", 0], ["add", 2]]}),
 ]
 FIXED_DFS = [(e[0], e[1], e[2] if len(e) > 2 else None) for e in FIXED_DFS]
 
